@@ -25,6 +25,9 @@ impl LintPass for ControlFlowCheck {
                 prevs.sort_by_cached_key(&order);
                 let mut functions = node.functions().iter().cloned().collect::<Vec<_>>();
                 functions.sort_by_cached_key(|f| order(&f.entry()));
+                // Every jump into the function is reported on this entry, in the same words: one
+                // diagnostic, which names the first jump (in program order) as related location
+                let mut jump_reported = false;
                 for prev_node in &prevs {
                     for function in &functions {
                         if prev_node.is_program_entry() {
@@ -36,6 +39,10 @@ impl LintPass for ControlFlowCheck {
                         // Jumps (J not JAL) to the start of recognized
                         // functions are errors
                         else if prev_node.is_unconditional_jump() {
+                            if jump_reported {
+                                break;
+                            }
+                            jump_reported = true;
                             errors.push(LintError::InvalidJumpToFunction(
                                 node.node().clone(),
                                 prev_node.node().clone(),
